@@ -71,6 +71,8 @@ def module_case(arg):
     profile = arg.get("profile")
     if profile is None and arg["idx"] % 3 == 1:
         profile = {"union_bias": True}  # every third module: tagged unions over twin sub-structures
+    elif profile is None and arg["idx"] % 6 == 5:
+        profile = {"const_bias": True}  # every sixth module: many constant virtual fields, some conditional / constrained
     elif profile is None and arg["idx"] % 3 == 2:
         profile = {"wide_exprs": True}  # every third module: 32/64-bit arithmetic in virtual fields and conditions
     gm = cppsuite.gen_module(arg["seed"], "mod", arg["idx"], profile)
